@@ -297,6 +297,32 @@ def make_faults():
         return ("%s::%s" % (it["name"], m["name"]), 2 if kind in ("optref", "okref", "errref", "errref-write") else 1), kind
     F.append(("elided-lifetime-in-return", "return", elided_return))
 
+    # elided lifetime in return, the single borrowed parameter being the elision source (methods of every kind of type)
+    def elided_return_param(prog, draw):
+        def borrows(t):
+            # anything that could be a second elision source (rustc would call the elided return ambiguous) or carries a lifetime
+            if t[0] in ("ref", "slice", "str", "strs", "cb", "write", "raw"):
+                return True
+            if t[0] == "opt":
+                return borrows(t[1])
+            if t[0] in ("struct", "box"):
+                return bool(t[2])
+            return bool(ir.type_lifetimes(t))
+        ms = [x for x in methods_of(prog) if not (x[3]["self"] and x[3]["self"][0] == "ref") and not x[1].get("lifetimes")
+              and not any(borrows(q[1]) for q in x[3]["params"])]
+        if not ms:
+            return None
+        mod, it, impl, m = draw(st.sampled_from(ms))
+        o = pick_opaque(prog, draw)
+        if not o:
+            return None
+        add_use(prog, mod, o["name"])
+        m["params"].insert(0, ["dv_src", ["ref", None, False, o["name"], []], []])
+        m["ret"] = draw(st.sampled_from([["ref", None, False, o["name"], []], ["opt", ["ref", None, False, o["name"], []], "std"]]))
+        red._fix_method_lifetimes(it, m)
+        return ("%s::%s" % (it["name"], m["name"]), 2 if m["ret"][0] == "opt" else 1), it["kind"]
+    F.append(("elided-lifetime-in-return-from-parameter", "return", elided_return_param))
+
     # dropped def-site bound
     def missing_bound(prog, draw):
         ms = [x for x in methods_of(prog) if not any(q[1][0] == "write" for q in x[3]["params"])]
